@@ -124,7 +124,7 @@ def run_tlc(module, cfg_text, name, outdir, workers=12, timeout=1800, env=None, 
     cmd = ["timeout", str(timeout), "java"] + jopts + ["-cp", TLC_JAR_CP, "tlc2.TLC", "-workers", str(workers),
                                                         "-metadir", meta, "-cleanup", "-noGenerateSpecTE", "-config", cfg]
     if simulate:
-        cmd += ["-simulate", simulate]
+        cmd += ["-simulate", simulate, "-seed", str(seed())]
     if depth:
         cmd += ["-depth", str(depth)]
     if coverage:
